@@ -14,15 +14,19 @@
   every `K` with `KernelsOK K` (`Obligations/QREnc.lean` proves it for the regenerated ones, `refKernels_ok` for
   the hand mirror the driver runs).  `FuncOK v` is the per-version, decidable statement "the coded function-pattern
   loops, run with position tags for the format/version bits, leave exactly the standard's function modules"; it is
-  kernel-evaluated for versions 1..10 (`funcOK_small`) — evaluating it in the kernel costs time and memory
-  quadratic in the symbol size (version 10: 15 s, 1.5 GB), so for versions 11..40 it is an explicit hypothesis of
-  the `_partial` theorems and is checked by the compiled driver on every run (`c07m funcok`).
+  a THEOREM for every version 1..40 (`mirror_funcOK_all`, wp `enc2`): the embed loops are written once over an
+  abstract matrix interface (Proofs/QREncFuncGen.lean; at `ByteMatrix` they are the model's loops by `rfl`), a
+  forward simulation (Proofs/QREncFuncSim.lean, QREncFuncBridge.lean) relates the `ByteMatrix` run to a run on a
+  matrix packed into one natural number, which the kernel evaluates in seconds per version
+  (Proofs/QREncFuncV*.lean); rows and columns that meet no function band are compared by general lemmas
+  (Proofs/QREncFuncPlain.lean).  The compiled driver still evaluates `FuncOK v` on every run (`c07m funcok`).
 -/
 import Gzx.Proofs.QREncPipeline
 import Gzx.Proofs.QREncEncode
 import Gzx.Proofs.QREncVersion
 import Gzx.Proofs.QREncKernels
-import Gzx.Proofs.QREncFuncAll
+import Gzx.Proofs.QREncFuncAll40
+import Gzx.Proofs.QREncFront
 namespace Gzx.Properties.C07Mirror
 open Gzx Gzx.QRRef Gzx.QREnc
 
@@ -80,24 +84,21 @@ theorem mirror_bch_eq_ref :
 
 /-! ### MatrixUtil_buildMatrix -/
 
-/-- `mirror_buildMatrix_eq_refMatrix`, versions 1..10 (kernel-checked function patterns): for every level, mask
-    and codeword stream that fits the data modules, `MatrixUtil_buildMatrix` on ANY matrix of the right size
-    (whatever it held: `clearMatrix` first) returns the reference matrix — every module. -/
-theorem mirror_buildMatrix_eq_refMatrix {K : Kernels} (hK : KernelsOK K) (v : Nat) (h1 : 1 ≤ v) (h10 : v ≤ 10)
+/-- `mirror_funcOK_all` (wp `enc2`): for EVERY version 1..40 the coded function-pattern loops — embedBasicPatterns
+    (finder patterns, separators with their emptiness checks, dark module, alignment patterns with the
+    centre-is-empty test, timing patterns), the embedTypeInfo loop and the maybeEmbedVersionInfo double loop —
+    started on the cleared matrix, run without error and leave at every module exactly what the standard puts there
+    (format / version bit positions as tags), and -1 on exactly the data modules. -/
+theorem mirror_funcOK_all (v : Nat) (h1 : 1 ≤ v) (h40 : v ≤ 40) : FuncOK v := funcOK_all v h1 h40
+
+/-- `mirror_buildMatrix_eq_refMatrix`: for every version 1..40, level, mask and codeword stream that fits the data
+    modules, `MatrixUtil_buildMatrix` on ANY matrix of the right size (whatever it held: `clearMatrix` first)
+    returns the reference matrix — every module. -/
+theorem mirror_buildMatrix_eq_refMatrix {K : Kernels} (hK : KernelsOK K) (v : Nat) (h1 : 1 ≤ v) (h40 : v ≤ 40)
     (ec : EC) (mask : Nat) (hk : mask < 8) (cw : List Nat) (hlen : (bitsOfBytes cw).length ≤ (zigzag v).length)
     (m0 : ByteMatrix) (hm0 : WFM (dimension v) m0) :
     buildMatrix K (bitsOfBytes cw) ec v (mask : Int) m0 = .ok (refByteMatrix v ec mask cw) :=
-  buildMatrix_eq_ref hK v h1 (by omega) (funcOK_small v h1 h10) (orderOK_all v) ec mask hk cw hlen m0 hm0
-
-/-- `mirror_buildMatrix_eq_refMatrix_partial`: the same for every version 1..40, GIVEN the per-version decidable
-    fact `FuncOK v` (missing part for 11..40: its kernel evaluation, see the file header; everything else —
-    naturality of the type/version-info loops in the bit values, the placement order, the data-placement fold — is
-    proved for all versions). -/
-theorem mirror_buildMatrix_eq_refMatrix_partial {K : Kernels} (hK : KernelsOK K) (v : Nat) (h1 : 1 ≤ v) (h40 : v ≤ 40)
-    (hf : FuncOK v) (ec : EC) (mask : Nat) (hk : mask < 8) (cw : List Nat)
-    (hlen : (bitsOfBytes cw).length ≤ (zigzag v).length) (m0 : ByteMatrix) (hm0 : WFM (dimension v) m0) :
-    buildMatrix K (bitsOfBytes cw) ec v (mask : Int) m0 = .ok (refByteMatrix v ec mask cw) :=
-  buildMatrix_eq_ref hK v h1 h40 hf (orderOK_all v) ec mask hk cw hlen m0 hm0
+  buildMatrix_eq_ref hK v h1 h40 (funcOK_all v h1 h40) (orderOK_all v) ec mask hk cw hlen m0 hm0
 
 /-- the ByteMatrix of the theorems above read as modules (1 = dark) IS the reference matrix -/
 theorem refByteMatrix_modules (v : Nat) (ec : EC) (mask : Nat) (cw : List Nat) :
@@ -131,15 +132,15 @@ theorem mirror_penalty_eq_ref {n : Nat} {rows : List (List Bool)} (hs : Square n
 
 example : Square 2 [[true, false], [false, true]] := ⟨rfl, by decide⟩
 
-/-- `mirror_chooseMask_eq_ref_partial`: `chooseMaskPattern` builds all eight matrices without error and returns
-    the reference's choice — the lowest penalty, the lowest pattern reference on a tie; the `math.MaxInt32` start
-    value is never met (penalty ≤ 85·n² + 100).  (Given `FuncOK v`; versions 1..10: `funcOK_small`.) -/
-theorem mirror_chooseMask_eq_ref_partial {K : Kernels} (hK : KernelsOK K) (v : Nat) (h1 : 1 ≤ v) (h40 : v ≤ 40)
-    (hf : FuncOK v) (ec : EC) (cw : List Nat) (hlen : (bitsOfBytes cw).length ≤ (zigzag v).length)
+/-- `mirror_chooseMask_eq_ref`: for every version 1..40 `chooseMaskPattern` builds all eight matrices without error
+    and returns the reference's choice — the lowest penalty, the lowest pattern reference on a tie; the
+    `math.MaxInt32` start value is never met (penalty ≤ 85·n² + 100). -/
+theorem mirror_chooseMask_eq_ref {K : Kernels} (hK : KernelsOK K) (v : Nat) (h1 : 1 ≤ v) (h40 : v ≤ 40)
+    (ec : EC) (cw : List Nat) (hlen : (bitsOfBytes cw).length ≤ (zigzag v).length)
     (m0 : ByteMatrix) (hm0 : WFM (dimension v) m0) :
     ∃ pens m, chooseMaskPattern K (bitsOfBytes cw) ec v m0 = .ok (((chooseMask v ec cw : Nat) : Int), pens, m) ∧
       WFM (dimension v) m :=
-  chooseMaskPattern_eq hK v h1 h40 hf ec cw hlen m0 hm0
+  chooseMaskPattern_eq hK v h1 h40 (funcOK_all v h1 h40) ec cw hlen m0 hm0
 
 /-! ### version choice -/
 
@@ -174,46 +175,117 @@ example : ∀ c ∈ [48, 49, 57], isDigit c := by intro c hc; unfold isDigit; si
 
 /-! ### composition -/
 
-/-- `mirror_encodeBack_eq_ref_partial`: everything `Encoder_encode` does once mode, header, data bits and version
-    are fixed — terminateBits, interleaveWithECBytes, NewByteMatrix, the QR_MASK_PATTERN hint (int / string / other,
-    valid or not) or chooseMaskPattern, the final MatrixUtil_buildMatrix — yields the reference symbol of the
-    payload, `refMatrix` of `finalCodewords` of `terminate`, with the hinted mask or the reference's own choice.
-    (Given `FuncOK v`; versions 1..10: `funcOK_small`.) -/
-theorem mirror_encodeBack_eq_ref_partial {K : Kernels} (hK : KernelsOK K) (v : Nat) (h1 : 1 ≤ v) (h40 : v ≤ 40)
-    (hf : FuncOK v) (maskHint : Option HintVal) (f : FrontResult) (hv : f.version = versionInfo v)
+/-- `mirror_encodeBack_eq_ref`: for every version 1..40, everything `Encoder_encode` does once mode, header, data
+    bits and version are fixed — terminateBits, interleaveWithECBytes, NewByteMatrix, the QR_MASK_PATTERN hint (int /
+    string / other, valid or not) or chooseMaskPattern, the final MatrixUtil_buildMatrix — yields the reference symbol
+    of the payload, `refMatrix` of `finalCodewords` of `terminate`, with the hinted mask or the reference's own choice. -/
+theorem mirror_encodeBack_eq_ref {K : Kernels} (hK : KernelsOK K) (v : Nat) (h1 : 1 ≤ v) (h40 : v ≤ 40)
+    (maskHint : Option HintVal) (f : FrontResult) (hv : f.version = versionInfo v)
     (hfit : f.headerAndDataBits.length ≤ 8 * dataCodewords v f.ec) :
     ∃ t, encodeBack K maskHint f = .ok t ∧ t.mode = f.mode ∧ t.version = v ∧ t.headerAndDataBits = f.headerAndDataBits ∧
       t.maskPattern = ((finalMask maskHint v f.ec f.headerAndDataBits : Nat) : Int) ∧
       t.terminated = bitsOfBytes (terminate (dataCodewords v f.ec) f.headerAndDataBits) ∧
       t.finalBits = bitsOfBytes (refCodewords v f.ec f.headerAndDataBits) ∧
       t.matrix = refByteMatrix v f.ec (finalMask maskHint v f.ec f.headerAndDataBits) (refCodewords v f.ec f.headerAndDataBits) :=
-  encodeBack_eq_ref hK v h1 h40 hf maskHint f hv hfit
+  encodeBack_eq_ref hK v h1 h40 (funcOK_all v h1 h40) maskHint f hv hfit
 
-/-- the same without per-version hypothesis for versions 1..10 -/
-theorem mirror_encodeBack_eq_ref {K : Kernels} (hK : KernelsOK K) (v : Nat) (h1 : 1 ≤ v) (h10 : v ≤ 10)
-    (maskHint : Option HintVal) (f : FrontResult) (hv : f.version = versionInfo v)
-    (hfit : f.headerAndDataBits.length ≤ 8 * dataCodewords v f.ec) :
-    ∃ t, encodeBack K maskHint f = .ok t ∧ t.version = v ∧
-      t.matrix = refByteMatrix v f.ec (finalMask maskHint v f.ec f.headerAndDataBits) (refCodewords v f.ec f.headerAndDataBits) := by
-  obtain ⟨t, ht, _, hv', _, _, _, _, hm⟩ := encodeBack_eq_ref hK v h1 (by omega) (funcOK_small v h1 h10) maskHint f hv hfit
-  exact ⟨t, ht, hv', hm⟩
+/-- `mirror_kanji_eq_packKanji` (wp `enc2`): `appendKanjiBytes` = the reference's `packKanji` for EVERY Shift_JIS byte
+    string (bytes below 256), error returns included: no encoder result, an odd byte count or a pair outside
+    0x8140..0x9FFC / 0xE040..0xEBBF is the WriterException "Invalid byte sequence" exactly when `packKanji` has no
+    value; otherwise the 13-bit values of the reference are appended. -/
+theorem mirror_kanji_eq_packKanji (sjis : Option (List Nat)) (hb : ∀ bytes, sjis = some bytes → ∀ b ∈ bytes, b < 256)
+    (bits : List Bool) :
+    appendKanjiBytes sjis bits =
+      match sjis.bind packKanji with
+      | some d => .ok (bits ++ d)
+      | none => .error .writer := appendKanjiBytes_eq sjis hb bits
 
-/-- `mirror_encode_eq_ref_partial` — the whole `Encoder_encode` mirror = the reference construction:
-    for every content, level, CHARACTER_SET / GS1_FORMAT / QR_VERSION / QR_MASK_PATTERN hints (of any dynamic type),
-    with `m` the mode `chooseMode` returns and a data segment whose packing is known (`Segment`: proved for numeric,
-    alphanumeric and byte mode by `segment_numeric/alnum/byte`; for Kanji mode it is a hypothesis — the gap:
-    `appendKanjiBytes` = `packKanji` is correspondence-only), the call settles on the reference's version
-    (`versionChoice`: the requested version iff it is in 1..40 and fits, else `minVersion`), writes the reference
-    payload (header segments, character count, data) and returns the reference symbol with the hinted or the
-    reference's own mask — and returns a WriterException exactly when no version is admissible.
-    `FuncOK` is needed for the version chosen only (versions 1..10: `funcOK_small`). -/
-theorem mirror_encode_eq_ref_partial {K : Kernels} (hK : KernelsOK K)
+example : appendKanjiBytes (some [0x93, 0x5F]) [] = .ok (toBitsBE 13 0xD9F) := by decide
+example : appendKanjiBytes (some [0x93]) [] = .error .writer ∧ appendKanjiBytes (some [0x80, 0x40]) [] = .error .writer := by decide
+
+/-- `mirror_chooseMode_eq_ref` (wp `enc2`): for every content and CHARACTER_SET hint value `chooseMode` returns — never
+    an error, never a panic — the mode of the reference mode analysis: Kanji iff the hint is Shift_JIS and
+    `isOnlyDoubleByteKanji` (encoder result of even length whose bytes at even positions are lead bytes
+    0x81..0x9F / 0xE0..0xEB), else numeric iff the content is non-empty and all digits, else alphanumeric iff it is
+    non-empty and all characters are in the 45-character table (so: not all digits), else byte. -/
+theorem mirror_chooseMode_eq_ref (content : List Nat) (isSJIS : Bool) (sjis : Option (List Nat)) :
+    chooseMode content isSJIS sjis = .ok (refMode content isSJIS sjis) ∧
+    isOnlyDoubleByteKanji sjis = .ok (onlyDoubleByteKanji sjis) ∧
+    refMode content isSJIS sjis =
+      (if isSJIS && onlyDoubleByteKanji sjis then Mode.kanji
+       else if !content.isEmpty && content.all isDigitB then Mode.numeric
+       else if !content.isEmpty && content.all inTable then Mode.alnum
+       else Mode.byte) :=
+  ⟨chooseMode_eq content isSJIS sjis, isOnlyDoubleByteKanji_eq sjis, rfl⟩
+
+example : refMode [49, 50] false none = .numeric ∧ refMode [49, 65] false none = .alnum ∧
+    refMode [49, 97] false none = .byte ∧ refMode [] false none = .byte ∧
+    refMode [0x93, 0x5F] true (some [0x93, 0x5F]) = .kanji := by decide
+
+/-- `mirror_encode_total` (wp `enc2`): the whole `Encoder_encode` mirror — level check, character set, `chooseMode`,
+    header segments, the data-bit loop of the mode, QR_VERSION hint or `recommendVersion`, character count,
+    `terminateBits`, blocks, mask, matrix — returns a symbol of a version 1..40 or a WriterException: never a panic
+    (index, nil version, make), never out of fuel, for EVERY content, level value and hint values of any type. -/
+theorem mirror_encode_total {K : Kernels} (hK : KernelsOK K) (inp : EncInput) :
+    (∃ t, encode K inp = .ok t ∧ 1 ≤ t.version ∧ t.version ≤ 40) ∨ encode K inp = .error .writer :=
+  encode_total hK inp
+
+/-- `mirror_encode_eq_ref` — the whole `Encoder_encode` mirror = the reference construction, with NO hypothesis
+    about mode or data segment: for every content, valid level, known CHARACTER_SET and GS1_FORMAT / QR_VERSION /
+    QR_MASK_PATTERN hints of any dynamic type, with `modeOf inp` the reference mode analysis and `refSegment` the
+    reference's data encodation of the mode's byte representation: where the reference has no segment (byte-mode
+    encoder failure, a Shift_JIS pair outside the Kanji ranges) the call is a WriterException; otherwise it settles
+    on the reference's version (`versionChoice`: the requested version iff it is in 1..40 and fits, else
+    `minVersion`), writes the reference payload (header segments, character count, data) and returns the reference
+    symbol with the hinted or the reference's own mask — and a WriterException exactly when no version is admissible.
+    Codec parameters (outside the model): the Shift_JIS encoder yields bytes (< 256) and, in Kanji mode, one rune
+    per byte pair; the registry's ECI value is below 128 (the code writes it in eight bits). -/
+theorem mirror_encode_eq_ref {K : Kernels} (hK : KernelsOK K)
+    (inp : EncInput) (ec : EC) (hec : ecOfInt inp.ecLevel = some ec)
+    (hcs : ∀ cs, inp.charset = some cs → cs.known = true)
+    (hsj : ∀ bs, inp.sjis = some bs → ∀ b ∈ bs, b < 256)
+    (hrc : ∀ bs, inp.sjis = some bs → modeOf inp = .kanji → inp.runeCount = bs.length / 2)
+    (he : ∀ e, eciOf inp (modeOf inp) = some e → e < 128) :
+    match refSegment inp (modeOf inp) with
+    | none => encode K inp = .error .writer
+    | some (count, data) =>
+      match versionChoice inp ec (modeOf inp) (headerBits (eciOf inp (modeOf inp)) (gs1OfHint inp.gs1) (modeOf inp)).length data.length with
+      | some v =>
+        ∃ t, encode K inp = .ok t ∧ t.mode = modeOf inp ∧ t.version = v ∧
+          t.headerAndDataBits = payloadBits v (headerBits (eciOf inp (modeOf inp)) (gs1OfHint inp.gs1) (modeOf inp)) (modeOf inp) count data ∧
+          t.maskPattern = ((finalMask inp.mask v ec t.headerAndDataBits : Nat) : Int) ∧
+          t.finalBits = bitsOfBytes (refCodewords v ec t.headerAndDataBits) ∧
+          t.matrix = refByteMatrix v ec (finalMask inp.mask v ec t.headerAndDataBits) (refCodewords v ec t.headerAndDataBits)
+      | none => encode K inp = .error .writer :=
+  encode_eq_ref_full hK inp ec hec hcs hsj hrc he
+
+/-- `mirror_encode_eq_refEncode` — the sharpest form: the mirror of `Encoder_encode` IS the reference encoder
+    `QRRef.refEncode` (written from ISO/IEC 18004) applied to the mode of the reference mode analysis, the mode's byte
+    representation of the content (`modeBytes`: the content, the bytes of the encoding in force, the Shift_JIS bytes)
+    and the configuration the hints amount to (`refConfig`): a WriterException exactly when the reference refuses
+    (no encoder result, not encodable in the mode, version out of range or too small, nothing fits), otherwise the
+    same mode, version, mask pattern, final codeword sequence and matrix — every module.  Same codec parameters. -/
+theorem mirror_encode_eq_refEncode {K : Kernels} (hK : KernelsOK K)
+    (inp : EncInput) (ec : EC) (hec : ecOfInt inp.ecLevel = some ec)
+    (hcs : ∀ cs, inp.charset = some cs → cs.known = true)
+    (hsj : ∀ bs, inp.sjis = some bs → ∀ b ∈ bs, b < 256)
+    (hrc : ∀ bs, inp.sjis = some bs → modeOf inp = .kanji → inp.runeCount = bs.length / 2)
+    (he : ∀ e, eciOf inp (modeOf inp) = some e → e < 128) :
+    match (modeBytes inp (modeOf inp)).bind (fun bytes => refEncode (modeOf inp) bytes (refConfig inp ec (modeOf inp))) with
+    | none => encode K inp = .error .writer
+    | some s =>
+      ∃ t, encode K inp = .ok t ∧ t.mode = s.mode ∧ t.version = s.version ∧ t.maskPattern = ((s.mask : Nat) : Int) ∧
+        t.finalBits = bitsOfBytes s.codewords ∧ t.matrix = refByteMatrix s.version ec s.mask s.codewords ∧
+        t.matrix.bytes.map (fun r => r.map (· == 1)) = s.matrix :=
+  encode_eq_refEncode hK inp ec hec hcs hsj hrc he
+
+/-- the same for a mode and segment given explicitly (any `Segment`, e.g. one of `mirror_segment_kinds`) -/
+theorem mirror_encode_eq_ref_segment {K : Kernels} (hK : KernelsOK K)
     (inp : EncInput) (ec : EC) (hec : ecOfInt inp.ecLevel = some ec)
     (hcs : ∀ cs, inp.charset = some cs → cs.known = true) (m : Mode)
     (hmode : chooseMode inp.content (match inp.charset with | some cs => cs.isSJIS | none => false) inp.sjis = .ok m)
     (bytes : List Nat) (count : Nat) (data : List Bool) (seg : Segment inp m bytes count data)
-    (he : ∀ e, eciOf inp m = some e → e < 128)
-    (hfunc : ∀ v, versionChoice inp ec m (headerBits (eciOf inp m) (gs1OfHint inp.gs1) m).length data.length = some v → FuncOK v) :
+    (he : ∀ e, eciOf inp m = some e → e < 128) :
     match versionChoice inp ec m (headerBits (eciOf inp m) (gs1OfHint inp.gs1) m).length data.length with
     | some v =>
       ∃ t, encode K inp = .ok t ∧ t.mode = m ∧ t.version = v ∧
@@ -222,7 +294,18 @@ theorem mirror_encode_eq_ref_partial {K : Kernels} (hK : KernelsOK K)
         t.finalBits = bitsOfBytes (refCodewords v ec t.headerAndDataBits) ∧
         t.matrix = refByteMatrix v ec (finalMask inp.mask v ec t.headerAndDataBits) (refCodewords v ec t.headerAndDataBits)
     | none => encode K inp = .error .writer :=
-  encode_eq_ref hK inp ec hec hcs m hmode bytes count data seg he hfunc
+  encode_eq_ref hK inp ec hec hcs m hmode bytes count data seg he
+    (fun v hv => funcOK_all v (versionChoice_range hv).1 (versionChoice_range hv).2.1)
+
+/-- non-vacuity of `mirror_encode_eq_ref`: a Kanji-mode input satisfying the codec parameters -/
+example : ∃ inp : EncInput, ecOfInt inp.ecLevel = some .M ∧ modeOf inp = .kanji ∧
+    (∀ bs, inp.sjis = some bs → ∀ b ∈ bs, b < 256) ∧
+    (∀ bs, inp.sjis = some bs → modeOf inp = .kanji → inp.runeCount = bs.length / 2) ∧
+    (∀ e, eciOf inp (modeOf inp) = some e → e < 128) :=
+  ⟨{ content := [0xE7, 0x82, 0xB9], runeCount := 1, ecLevel := 0, charset := some ⟨true, true, some 20⟩,
+     encoded := some [0x93, 0x5F], sjis := some [0x93, 0x5F] }, rfl, by decide, by
+      intro bs h b hb; cases h; simp at hb; omega, by intro bs h _; cases h; rfl, by
+      intro e h; simp [eciOf] at h; omega⟩
 
 /-- the three proved segment kinds -/
 theorem mirror_segment_kinds (inp : EncInput) :
